@@ -503,7 +503,11 @@ def run(ctx):
 
 CORPUS = [   # (op, coordinate, witness id or None for a control, what)
     ("big", ("f32", 5.0), None, "control"),
+    ("big", ("f32", 3.5), None, "control"),
+    ("big", ("f32", 2.25), None, "control-inside"),
     ("wrap32", ("f64", 7.25), None, "control"),
+    ("wrap32", ("f64", 4294967294.5), None, "control"),
+    ("wrap32", ("f64", 1.75), None, "control-inside"),
     ("big", ("f32", 1e30), "F13", "coordinate beyond the range of the index type over a clamp layer: float->index conversion out of range"),
     ("wrap32", ("f64", 4294967295.5), "F15", "+1 neighbour index wraps in a 32-bit index type before the clamp layer sees it"),
 ]
@@ -518,15 +522,34 @@ def run_corpus(ctx, corr, cfgs):
         if rc != 0:
             raise C.CompileError(j[0], j[2], err)
     lines = [f"{op} {tobits(32 if k == 'f32' else 64, x)}" for op, (k, x), _, _ in CORPUS]
-    want = str(tobits(32, 40.0))
+    # the width-faithful model (Model/LinearW.lean, `linearLW w`): what the code's index arithmetic computes, findings included
+    mlines = [f"W {64 if op == 'big' else 32} {32 if k == 'f32' else 64} {tobits(32 if k == 'f32' else 64, x)}" for op, (k, x), _, _ in CORPUS]
+    mouts = C.run_driver("lincheck", mlines)
+    corr.add_obl("lin_width_model")
     for cfg in cfgs:
         outs, _ = C.run_lines(ctx.work.path(f"lincorpus_{cfg}"), lines)
-        for (op, (k, x), wit, what), o in zip(CORPUS, outs):
+        for (op, (k, x), wit, what), o, m in zip(CORPUS, outs, mouts):
             corr.configs[cfg] += 1
             corr.case(("corpus", op, x, cfg), True)
             corr.dist["corpus/" + (wit or "control")] += 1
+            exact = {"control-inside": None}.get(what, 40.0)
+            want = str(tobits(32, exact)) if exact is not None else None
+            # correspondence with the width-faithful model: same value where the model is defined; where the model says the
+            # conversion is undefined behaviour nothing is demanded of the implementation (UBSan reports it in `dbg`)
+            if m.startswith("ok ") and "/" in m:
+                num, den = m.split()[1].split("/")
+                mval = Fraction(int(num), int(den))
+                agree = o.isdigit() and Fraction(frombits(32, int(o))) == mval
+                corr.add_obl("lin_width_model", 1, 0 if agree else 1)
+                if not agree:
+                    corr.violation("lin_width_model", f"linear over clamp at x = {x!r} ({cfg}): implementation {o}, width-faithful model {m}",
+                                   {"corpus": op, "x": x, "cfg": cfg}, impl=o, model=m, oracle_fails=False, key={"kind": "corpus-model", "op": op, "x": x}, cfg=cfg)
+                if want is None:
+                    want = str(tobits(32, float(mval)))
+            else:
+                corr.add_obl("lin_width_model", 1, 0)
             ok = o == want
-            corr.add_obl("lin_bound", 1, 0)      # the model agrees with the property here (it flags the conversion); the code is what differs
+            corr.add_obl("lin_bound", 1, 0)      # the idealised model agrees with the property here; the code's index arithmetic is what differs
             if not ok:
                 got = frombits(32, int(o)) if o.isdigit() else o
                 corr.violation("lin_bound", f"linear over clamp [0,3] (values 10,20,30,40) at x = {x!r} ({cfg}): result {got}, the interpolant of the "
